@@ -729,9 +729,11 @@ class IoContract(Generic[TermList_t]):
         logging.debug("****** Computing guarantees")
         g1_t = self.g.copy()
         g2_t = other.g.copy()
-        (g1, used) = g1_t.elim_vars_by_relaxing(g2_t, intvars, simplify, tactics_order)
+        # the two sets of guarantees are not simplified against each other here: a guarantee that both
+        # contracts make would be dropped from both sides. Redundancies are removed below.
+        (g1, used) = g1_t.elim_vars_by_relaxing(g2_t, intvars, False, tactics_order)
         tactics_used.append(used)
-        (g2, used) = g2_t.elim_vars_by_relaxing(g1_t, intvars, simplify, tactics_order)
+        (g2, used) = g2_t.elim_vars_by_relaxing(g1_t, intvars, False, tactics_order)
         tactics_used.append(used)
         allguarantees = g1 | g2
         (allguarantees, used) = allguarantees.elim_vars_by_relaxing(assumptions, intvars, simplify, tactics_order)
